@@ -28,7 +28,7 @@ def body_size(f):
     return len(wasm_encode.vec(e, [e.u(n, "l") + [wasm_encode.VT[t]] for t, n in f.get("locals", [])], "l") + wasm_encode.enc_expr(e, f["body"], "b"))
 
 
-def make_module(rng, nf, sized=False):
+def make_module(rng, nf, sized=False, helpers=True):
     """Functions with memory access, memory.init, calls, a host import, duplicate bodies."""
     types = [{"p": ["i32"], "r": ["i32"]}, {"p": ["i32"], "r": []}]
     funcs = []
@@ -62,6 +62,14 @@ def make_module(rng, nf, sized=False):
             body.insert(0, ["nop"])
         funcs.append({"type": 0, "locals": [["i32", 1]], "body": body, "sized": True})
     nf = len(funcs)
+    # functions that are not exported and whose debug names (-g) are alike up to punctuation, equal, or words of C
+    hnames = ["memcpy.1", "memcpy_1", "memcpy 1", "a-b", "a_b", "dup", "dup", "int", "main", "operator new(unsigned long)", "q\"uote\\"] if helpers else []        # (not f<N>: that is the known collision with internal names under -m)
+    for hk in range(len(hnames)):
+        funcs.append({"type": 0, "locals": [], "body": [["local.get", 0], ["i32.const", b32(1000 * (hk + 1))], ["i32.add"], ["end"]]})
+    hbody = [["i32.const", b32(0)]]
+    for hk in range(len(hnames)):
+        hbody += [["local.get", 0], ["call", 1 + nf + hk], ["i32.add"]]
+    funcs.append({"type": 0, "locals": [], "body": hbody + [["end"]]})
     m = {"types": types, "imports": [{"mod": "env", "name": "note", "kind": "func", "type": 1, "ret": []}], "funcs": funcs,
          "memory": {"min": 1, "max": 2},
          # active and passive segments interleaved (offsets into an external blob must count every segment)
@@ -72,10 +80,16 @@ def make_module(rng, nf, sized=False):
          "table": {"min": 2, "max": 2}, "elems": [{"offset": ["i32.const", b32(0)], "funcs": [0, 1]}],
          # the import is re-exported, too
          "exports": [{"name": "fn%d" % k, "kind": "func", "idx": 1 + k} for k in range(nf)] + [{"name": "memory", "kind": "memory", "idx": 0},
-                                                                                              {"name": "renote", "kind": "func", "idx": 0}],
+                                                                                              {"name": "renote", "kind": "func", "idx": 0},
+                                                                                              {"name": "helpers", "kind": "func", "idx": 1 + nf + len(hnames)}],
          "names": {str(1 + k): "func_%d" % k for k in range(nf)}}
     m["names"]["0"] = "host_note"
+    for hk, hn_ in enumerate(hnames):
+        m["names"][str(1 + nf + hk)] = hn_
     return m
+
+
+NIMP = 6
 
 
 def stress_module(nf):
@@ -102,17 +116,23 @@ def stress_module(nf):
         body += rmw + [[op, al, 8 * (k % 50)], ["drop"]]
         body += [["local.get", 3], [sat[k % len(sat)].replace("f32", "f64")] if "f64" in sat[k % len(sat)] else ["i32.trunc_sat_f64_s"], ["drop"]] \
             if False else [["local.get", 3], ["i32.trunc_sat_f64_s"], ["drop"], ["local.get", 2], ["i64.trunc_sat_f32_u"], ["drop"]]
-        body += [["global.get", k % 5], ["i32.const", b32(a32 ^ 0x5555)], ["i32.add"], ["global.set", k % 5],
-                 ["local.get", 0], ["i32.const", b32(k % 7)], ["i32.add"], ["call", (k + 1) % nf if k % 3 == 0 else k],
+        # (function indices: NIMP imported functions come first)
+        body += [["local.get", 0], ["call", k % NIMP], ["drop"],
+                 ["global.get", k % 5], ["i32.const", b32(a32 ^ 0x5555)], ["i32.add"], ["global.set", k % 5],
+                 ["local.get", 0], ["i32.const", b32(k % 7)], ["i32.add"], ["call", NIMP + ((k + 1) % nf if k % 3 == 0 else k)],
                  ["i32.const", b32(k % 4)], ["call_indirect", 0, 0],
                  ["local.get", 1], ["i64.const", b64(a64 >> 3)], ["i64.xor"], ["i32.wrap_i64"], ["i32.add"],
                  ["i32.const", b32(1024 + 4 * k)], ["i32.load16_s", 1, 4 * k + 2], ["i32.add"], ["end"]]
         funcs.append({"type": 0, "locals": [["i64", 1], ["f32", 1], ["f64", 1]], "body": body})
-    return {"types": [{"p": ["i32"], "r": ["i32"]}], "funcs": funcs, "memory": {"min": 1, "max": 1, "shared": True}, "table": {"min": 4, "max": 4},
-            "elems": [{"offset": ["i32.const", b32(0)], "funcs": [0, 1, 2, 3]}],
+    # imported functions whose names take from nothing to a long time to turn into identifiers; every function calls one
+    imports = [{"mod": "env", "name": nm_, "kind": "func", "type": 0, "ret": b32(1)} for nm_ in
+               ("h", "name with blanks & signs: %s\\n", "l" * 3000, "\u00e9" * 20000, "x.y-z" * 4000, "q")]
+    assert len(imports) == NIMP
+    return {"types": [{"p": ["i32"], "r": ["i32"]}], "imports": imports, "funcs": funcs, "memory": {"min": 1, "max": 1, "shared": True}, "table": {"min": 4, "max": 4},
+            "elems": [{"offset": ["i32.const", b32(0)], "funcs": [NIMP, NIMP + 1, 2, NIMP + 3]}],
             "globals": [{"t": "i32", "mut": True, "init": ["i32.const", b32(g_)]} for g_ in range(5)],
-            "exports": [{"name": "f%dx" % k, "kind": "func", "idx": k} for k in range(0, nf, 17)],
-            "names": {str(k): "stress_fn_%d" % k for k in range(nf)}}
+            "exports": [{"name": "f%dx" % k, "kind": "func", "idx": NIMP + k} for k in range(0, nf, 17)],
+            "names": {str(NIMP + k): "stress_fn_%d" % k for k in range(nf)}}
 
 
 TAIL_SWAP = {"i32.add": "i32.sub", "i32.xor": "i32.or", "i32.mul": "i32.and"}
@@ -198,7 +218,8 @@ def main():
         traced = pooltrace.build_traced(os.path.join(wd, "traced"))
         # B. pool traces of the real translator under perturbed schedules
         nf = 7
-        mod = make_module(rng, nf)
+        mod = make_module(rng, nf, helpers=False)
+        nf = len(mod["funcs"])
         wasm = os.path.join(wd, "pool.wasm")
         open(wasm, "wb").write(wasm_encode.encode(machine.enc_module(mod)))
         runs = [(t, f, s) for t in (1, 2, 3, 7) for f in (1, 2, 3) for s in range(8 if tier == "quick" else 80)]
@@ -385,7 +406,8 @@ def main():
             m = make_module(random.Random(SEED + mi), 6)
             items.append({"id": "opt%d" % mi, "module": m,
                           "script": [INST] + [{"op": "call", "inst": 1, "export": "fn%d" % k, "args": [{"t": "i32", "b": b32(x)}]}
-                                              for k in range(6) for x in (0, 5, 0xFFFFFFFF)]})
+                                              for k in range(6) for x in (0, 5, 0xFFFFFFFF)] +
+                                    [{"op": "call", "inst": 1, "export": "helpers", "args": [{"t": "i32", "b": b32(3)}]}]})
         # control flow and stack shapes from the C03 families and generated programs: pretty printing and file splitting
         # must not change what any of them computes
         src3 = open(os.path.join(os.path.dirname(os.path.abspath(__file__)), "c03.py")).read().replace("main_wrap(main)", "")
